@@ -100,4 +100,6 @@ func checkC05(p *Program, r *Result) {
 	checkChunkBufferIdentity(p, r, "C05.r")
 	r.rule("C05.p", "a length prefix is computed from the quantity the following loop emits", 2)
 	checkPrefixLoops(p, r, "C05.p", pkgMcap)
+	r.rule("C05.i", "index records are written as they were accumulated: encoders do not modify or reorder the record they are handed", 1)
+	checkWriterDoesNotMutateInputs(p, r, "C05.i")
 }
